@@ -71,25 +71,45 @@ Proof. revert i; induction l; intros [|i]; cbn; auto. Qed.
 Local Open Scope Z_scope.
 Notation B53 := (2 ^ 53)%Z.
 
+(* the one-operation facts, bundled *)
+Record ExactLaws {FA ZA : Arith} (R Rs : FA -> ZA -> Prop) (N : ZA -> Z) : Prop := {
+  el_ring : RingLaws ZA;
+  el_N_nonneg : forall a, 0 <= N a;
+  el_N_zero : forall a, N a = 0 -> a = zero;
+  el_N_zero0 : N zero = 0;
+  el_N_add : forall a b : ZA, N (a + b)%A <= N a + N b;
+  el_N_mul : forall a b : ZA, N (a * b)%A <= N a * N b;
+  el_Rs_R : forall x a, Rs x a -> R x a;
+  el_Rs_zero : Rs zero zero;
+  el_Rs_add_l : forall x y a b, Rs x a -> R y b -> N (a + b)%A < B53 -> Rs (x + y)%A (a + b)%A;
+  el_Rs_add_r : forall x y a b, R x a -> Rs y b -> N (a + b)%A < B53 -> Rs (x + y)%A (a + b)%A;
+  el_Rs_add0_l : forall x y a b, Rs x a -> a = zero -> R y b -> Rs (x + y)%A (a + b)%A;
+  el_Rs_add0_r : forall x y a b, R x a -> a = zero -> Rs y b -> Rs (x + y)%A (a + b)%A;
+  el_Rs_sub : forall x y a b, Rs x a -> R y b -> N (a - b)%A < B53 -> Rs (x - y)%A (a - b)%A;
+  el_R_neg : forall x a, R x a -> R (- x)%A (- a)%A;
+  el_R_mul : forall x y a b, R x a -> R y b -> N a * N b < B53 -> R (x * y)%A (a * b)%A;
+}.
+
 Section Gen.
 Context {FA ZA : Arith}.
 Variables (R Rs : FA -> ZA -> Prop) (N : ZA -> Z).
-Hypothesis RLZ : RingLaws ZA.
+Hypothesis EL : ExactLaws R Rs N.
+Let RLZ : RingLaws ZA := el_ring _ _ _ EL.
 Add Ring ZAring : (rl_ring ZA RLZ).
-Hypothesis N_nonneg : forall a, 0 <= N a.
-Hypothesis N_zero : forall a, N a = 0 -> a = zero.
-Hypothesis N_zero0 : N zero = 0.
-Hypothesis N_add : forall a b : ZA, N (a + b)%A <= N a + N b.
-Hypothesis N_mul : forall a b : ZA, N (a * b)%A <= N a * N b.
-Hypothesis Rs_R : forall x a, Rs x a -> R x a.
-Hypothesis Rs_zero : Rs zero zero.
-Hypothesis Rs_add_l : forall x y a b, Rs x a -> R y b -> N (a + b)%A < B53 -> Rs (x + y)%A (a + b)%A.
-Hypothesis Rs_add_r : forall x y a b, R x a -> Rs y b -> N (a + b)%A < B53 -> Rs (x + y)%A (a + b)%A.
-Hypothesis Rs_add0_l : forall x y a b, Rs x a -> a = zero -> R y b -> Rs (x + y)%A (a + b)%A.
-Hypothesis Rs_add0_r : forall x y a b, R x a -> a = zero -> Rs y b -> Rs (x + y)%A (a + b)%A.
-Hypothesis Rs_sub : forall x y a b, Rs x a -> R y b -> N (a - b)%A < B53 -> Rs (x - y)%A (a - b)%A.
-Hypothesis R_neg : forall x a, R x a -> R (- x)%A (- a)%A.
-Hypothesis R_mul : forall x y a b, R x a -> R y b -> N a * N b < B53 -> R (x * y)%A (a * b)%A.
+Let N_nonneg := el_N_nonneg _ _ _ EL.
+Let N_zero := el_N_zero _ _ _ EL.
+Let N_zero0 := el_N_zero0 _ _ _ EL.
+Let N_add := el_N_add _ _ _ EL.
+Let N_mul := el_N_mul _ _ _ EL.
+Let Rs_R := el_Rs_R _ _ _ EL.
+Let Rs_zero := el_Rs_zero _ _ _ EL.
+Let Rs_add_l := el_Rs_add_l _ _ _ EL.
+Let Rs_add_r := el_Rs_add_r _ _ _ EL.
+Let Rs_add0_l := el_Rs_add0_l _ _ _ EL.
+Let Rs_add0_r := el_Rs_add0_r _ _ _ EL.
+Let Rs_sub := el_Rs_sub _ _ _ EL.
+Let R_neg := el_R_neg _ _ _ EL.
+Let R_mul := el_R_mul _ _ _ EL.
 
 Implicit Types p q : list FA.
 Implicit Types zs ws : list ZA.
